@@ -26,6 +26,9 @@ type c06Desc struct {
 	Cfg      lab.Cfg `json:"cfg"`
 	FirstGen string  `json:"firstgen,omitempty"` // "" fresh | "discarded" | "finalized": the session under test starts by resuming such a file
 	AllBytes bool    `json:"allbytes,omitempty"`
+	Gen1Puts int     `json:"gen1puts,omitempty"` // blocks of the first generation (default 2)
+	Puts     int     `json:"puts,omitempty"`     // blocks of the session under test (default 1-5)
+	Sha256   bool    `json:"sha256,omitempty"`   // only raw sha2-256 blocks (the common case: one hash code, one digest width in the index)
 	OnlyEv   int     `json:"only_ev,omitempty"`   // replay: event index + 1
 	OnlyTear int     `json:"only_tear,omitempty"` // replay: tear + 1
 }
@@ -145,6 +148,11 @@ func runC06(t *mon.T, raw json.RawMessage) {
 		seen := map[string]bool{}
 		for len(out) < n {
 			b := gen.HonestBlock(r, gen.BlockOpts{Size: -1, MaxSize: 260, NoIdentity: !cfg.StoreID})
+			if d.Sha256 {
+				data := gen.Bytes(r, 1+r.Intn(40))
+				dg, _ := refcar.Hash(0x12, data)
+				b = refcar.Block{Cid: refcar.MakeCidV1(0x55, 0x12, dg), Data: data}
+			}
 			c, _, _ := refcar.SplitCid(b.Cid)
 			k := string(c.Multihash())
 			if seen[k] {
@@ -155,8 +163,18 @@ func runC06(t *mon.T, raw json.RawMessage) {
 		}
 		return out
 	}
-	all := mk(2 + 1 + r.Intn(4) + 2) // first generation (2) + session (1..4) + continuation (2)
-	gen1, sess, cont := all[:2], all[2:len(all)-2], all[len(all)-2:]
+	n1, ns := 2, 1+r.Intn(4)
+	if d.Gen1Puts > 0 {
+		n1 = d.Gen1Puts
+	}
+	if d.Puts > 0 {
+		ns = d.Puts
+	}
+	all := mk(n1 + ns + 2) // first generation + session + continuation (2)
+	gen1, sess, cont := all[:n1], all[n1:len(all)-2], all[len(all)-2:]
+	if n1+ns >= 25 {
+		t.Cover("large-sessions(index > 1 KiB)")
+	}
 	if r.Intn(5) == 0 {
 		sess = append(sess, gen.BoundaryBlock(r, 700+r.Intn(2000)))
 	}
@@ -491,17 +509,29 @@ func genC06(g *mon.G) {
 	for i := 0; i < n; i++ {
 		g.Emit(c06Desc{Seed: r.Int63(), API: []string{"blockstore", "storage"}[i%2], Cfg: cfgs[(i/2)%len(cfgs)], FirstGen: gens[(i/16)%len(gens)], AllBytes: g.Thorough() || i%8 == 0})
 	}
+	// large sessions: the index of 25+ blocks exceeds 1 KiB, so its bytes can pass for a data section
+	// (0x81 0x08 = a 1025-byte length prefix, followed by what parses as an empty identity CID)
+	for i := 0; i < g.Pick(12, 96); i++ {
+		api := []string{"blockstore", "storage"}[i%2]
+		cfg := []lab.Cfg{{ZeroEOF: true}, {}, {ZeroEOF: true, DataPad: 4}}[(i/2)%3]
+		switch (i / 6) % 2 {
+		case 0:
+			g.Emit(c06Desc{Seed: r.Int63(), API: api, Cfg: cfg, Puts: 26 + r.Intn(14), Sha256: true, AllBytes: g.Thorough()})
+		case 1:
+			g.Emit(c06Desc{Seed: r.Int63(), API: api, Cfg: cfg, FirstGen: "finalized", Gen1Puts: 26 + r.Intn(14), Puts: 1 + r.Intn(2), Sha256: true, AllBytes: true})
+		}
+	}
 }
 
 func init() {
 	Register(&mon.Check{
 		ID:          "C06",
 		Level:       "fault_enumeration",
-		Rule:        "cases = seeded writing sessions (open, 1-5 puts of honest distinct blocks, Finalize) x 8 option configurations x {blockstore.OpenReadWriteFile traced through the verif hooks, storage on a tracing memfile} x {fresh file, resuming a discarded file, resuming a finalized file}; the ordered mutation trace with call/ack markers is cut at EVERY event boundary and, within every write, at torn lengths {1, mid, len-1} (quick; every byte for 1 in 8 cases) or every byte (thorough, writes ≤ 600 B); each crash image is reopened with the same roots/options and judged: on error every acknowledged section must still be intact in the file left behind; on success every acknowledged block must be present with exact bytes, nothing that was never put may be listed, in-flight blocks if present must be intact, and after two more puts and Finalize the archive must decode strictly, verify, hold all acknowledged + new blocks and nothing unknown, with exact index and header. counters.crash-images counts images",
+		Rule:        "cases = seeded writing sessions (open, 1-5 puts of honest distinct blocks, Finalize) x 8 option configurations x {blockstore.OpenReadWriteFile traced through the verif hooks, storage on a tracing memfile} x {fresh file, resuming a discarded file, resuming a finalized file}, plus large sessions (26-40 sha2-256 blocks, index > 1 KiB, with and without ZeroLengthSectionAsEOF, fresh or resuming a finalized file); the ordered mutation trace with call/ack markers is cut at EVERY event boundary and, within every write, at torn lengths {1, mid, len-1} (quick; every byte for 1 in 8 cases) or every byte (thorough, writes ≤ 600 B); each crash image is reopened with the same roots/options and judged: on error every acknowledged section must still be intact in the file left behind; on success every acknowledged block must be present with exact bytes, nothing that was never put may be listed, in-flight blocks if present must be intact, and after two more puts and Finalize the archive must decode strictly, verify, hold all acknowledged + new blocks and nothing unknown, with exact index and header. counters.crash-images counts images",
 		Assumptions: []string{"crash model = prefix of the issued writes with the last write torn (no reordering), as the property states", "trace completeness is checked per session: replaying the trace must reproduce the final file"},
 		Gen:         genC06,
 		Run:         runC06,
 		MinCover: map[string]int{"crash-images": 3000, "reopen:accepted": 500, "reopen:rejected": 100, "continued-and-finalized": 500,
-			"cut:put.section.data:torn": 50, "cut:put.section.cid:torn": 50, "cut:finalize.index": 50, "cut:finalize.header.fields:torn": 20, "cut:resume.truncate": 5, "cut:resume.unfinalize-header.fields:torn": 5, "cut:open.payload-header:torn": 10},
+			"cut:put.section.data:torn": 50, "cut:put.section.cid:torn": 50, "cut:finalize.index": 50, "cut:finalize.header.fields:torn": 20, "cut:resume.truncate": 5, "cut:resume.unfinalize-header.fields:torn": 5, "cut:open.payload-header:torn": 10, "large-sessions(index > 1 KiB)": 8},
 	})
 }
